@@ -685,3 +685,47 @@ func (u *Unit) havocGhost2(st *State, name string, loopFrame bool) {
 	}
 	st.havocs = append(st.havocs, havocEvent{id: id, loopFrame: loopFrame, pred: match})
 }
+
+type heapKeyInfo struct {
+	key  string
+	sort Sort
+}
+
+// readHeapKeys lists the heap keys for which a base symbol (H<n>_key) has been declared in
+// this unit, i.e. keys that were read at some point.
+func (u *Unit) readHeapKeys() []heapKeyInfo {
+	seen := map[string]bool{}
+	var out []heapKeyInfo
+	for _, name := range u.d.order {
+		raw := strings.Trim(name, "|")
+		if len(raw) < 3 || raw[0] != 'H' {
+			continue
+		}
+		i := strings.Index(raw, "_")
+		if i < 2 {
+			continue
+		}
+		digits := raw[1:i]
+		ok := true
+		for _, c := range digits {
+			if c < '0' || c > '9' {
+				ok = false
+			}
+		}
+		if !ok {
+			continue
+		}
+		key := raw[i+1:]
+		if seen[key] || strings.HasPrefix(key, "$") {
+			continue
+		}
+		decl := u.d.text[name]
+		j := strings.Index(decl, " () ")
+		if j < 0 {
+			continue
+		}
+		seen[key] = true
+		out = append(out, heapKeyInfo{key, Sort(strings.TrimSuffix(decl[j+4:], ")"))})
+	}
+	return out
+}
